@@ -299,13 +299,13 @@ impl<I: Iterator> Iterator for ChunkIter<I> {
 }
 
 pub struct BatchingAdapter<A> {
-    inner: A,
+    inner: Rc<A>,
     sched: Sched,
     pos: Cell<usize>,
 }
 
 impl<A> BatchingAdapter<A> {
-    pub fn new(inner: A, sched: Sched) -> Self {
+    pub fn new(inner: Rc<A>, sched: Sched) -> Self {
         BatchingAdapter { inner, sched, pos: Cell::new(0) }
     }
     /// `batch_sequences.pop_front().unwrap_or(0)`
@@ -616,10 +616,11 @@ fn eval_batch_exec(args: &[Sexp]) -> Option<String> {
     if ir_to_sexp(&q.ir_query) != *r.ir {
         return Some("(ir-mismatch)".to_string());
     }
+    let table = Rc::new(p.adapter());
     let base = outcome(|| execute(Arc::new(p.adapter()), q.clone(), &r.args));
     for s in &scheds {
         BATCHED_RUNS.with(|c| c.set(c.get() + 1));
-        let got = outcome(|| execute(Arc::new(BatchingAdapter::new(p.adapter(), s.clone())), q.clone(), &r.args));
+        let got = outcome(|| execute(Arc::new(BatchingAdapter::new(table.clone(), s.clone())), q.clone(), &r.args));
         let same = match (&base, &got) {
             (Ok(a), Ok(b)) => a == b,
             (Err(_), Err(_)) => true,
@@ -630,6 +631,58 @@ fn eval_batch_exec(args: &[Sexp]) -> Option<String> {
         }
     }
     Some(render_outcome(&base))
+}
+
+thread_local! {
+    /// the repo's numbers adapter (parsing its schema is the expensive part: once per process)
+    static NUMBERS: Rc<NumbersAdapter> = Rc::new(NumbersAdapter::new());
+}
+
+/// A shared adapter used as it is.
+struct Passthrough<A>(Rc<A>);
+
+impl<A: Adapter<'static> + 'static> Adapter<'static> for Passthrough<A>
+where
+    A::Vertex: 'static,
+{
+    type Vertex = A::Vertex;
+
+    fn resolve_starting_vertices(
+        &self,
+        edge_name: &Arc<str>,
+        parameters: &EdgeParameters,
+        resolve_info: &ResolveInfo,
+    ) -> VertexIterator<'static, Self::Vertex> {
+        self.0.resolve_starting_vertices(edge_name, parameters, resolve_info)
+    }
+    fn resolve_property<V: AsVertex<Self::Vertex> + 'static>(
+        &self,
+        contexts: ContextIterator<'static, V>,
+        type_name: &Arc<str>,
+        property_name: &Arc<str>,
+        resolve_info: &ResolveInfo,
+    ) -> ContextOutcomeIterator<'static, V, FieldValue> {
+        self.0.resolve_property(contexts, type_name, property_name, resolve_info)
+    }
+    fn resolve_neighbors<V: AsVertex<Self::Vertex> + 'static>(
+        &self,
+        contexts: ContextIterator<'static, V>,
+        type_name: &Arc<str>,
+        edge_name: &Arc<str>,
+        parameters: &EdgeParameters,
+        resolve_info: &ResolveEdgeInfo,
+    ) -> ContextOutcomeIterator<'static, V, VertexIterator<'static, Self::Vertex>> {
+        self.0.resolve_neighbors(contexts, type_name, edge_name, parameters, resolve_info)
+    }
+    fn resolve_coercion<V: AsVertex<Self::Vertex> + 'static>(
+        &self,
+        contexts: ContextIterator<'static, V>,
+        type_name: &Arc<str>,
+        coerce_to_type: &Arc<str>,
+        resolve_info: &ResolveInfo,
+    ) -> ContextOutcomeIterator<'static, V, bool> {
+        self.0.resolve_coercion(contexts, type_name, coerce_to_type, resolve_info)
+    }
 }
 
 const NUMBERS_DIR: &str = "/repo/trustfall_core/test_data/tests/valid_queries";
@@ -666,10 +719,12 @@ fn eval_batch_numbers(args: &[Sexp]) -> Option<String> {
     let t = load_numbers_query(stem.as_atom()?)?;
     let scheds = parse_scheds(scheds)?;
     let q: Arc<IndexedQuery> = Arc::new(IndexedQuery::try_from(t.ir_query).ok()?);
-    let base = guarded(|| run_numbers(NumbersAdapter::new(), &q, &t.arguments)).map_err(|i| panic_key(&i));
+    let numbers = NUMBERS.with(|n| n.clone());
+    // the unbatched run: the shared adapter as it is
+    let base = guarded(|| run_numbers(Passthrough(numbers.clone()), &q, &t.arguments)).map_err(|i| panic_key(&i));
     for s in &scheds {
         BATCHED_RUNS.with(|c| c.set(c.get() + 1));
-        let got = guarded(|| run_numbers(BatchingAdapter::new(NumbersAdapter::new(), s.clone()), &q, &t.arguments))
+        let got = guarded(|| run_numbers(BatchingAdapter::new(numbers.clone(), s.clone()), &q, &t.arguments))
             .map_err(|i| panic_key(&i));
         let same = match (&base, &got) {
             (Ok(a), Ok(b)) => a == b,
@@ -849,7 +904,7 @@ impl Prop for C02 {
                 tags.push("fold".to_string());
             }
             out.push(Case {
-                request: Sexp::call("batch-numbers", vec![Sexp::atom(stem.clone()), scheds_spec(rng.next_u64() >> 1, n_rand.min(200))]),
+                request: Sexp::call("batch-numbers", vec![Sexp::atom(stem.clone()), scheds_spec(rng.next_u64() >> 1, if tier == Tier::Quick { 8 } else { 200 })]),
                 tags: tags.clone(),
             });
             tags.push("plan".to_string());
